@@ -401,7 +401,7 @@ def assemble(unit, repo, canary=False):
         rel = spec["file"]
         if rel not in files:
             files[rel] = SourceFile(repo, rel)
-        item = files[rel].find(spec.get("kind", "fn"), spec["name"], spec.get("container"), spec.get("nth"))
+        item = files[rel].find(spec.get("kind", "fn"), spec["name"], spec.get("container"), spec.get("nth"), spec.get("inside_fn"))
         fn_id, text, marks, _ = build_fn(item, spec, canary, asm.rewrites)
         wrap = spec.get("wrap")
         pre = (wrap + " {\n") if wrap else ""
